@@ -127,6 +127,14 @@ Example tridiag_mul_spec_nonvacuous :
   wfT (@mkT AQ [] [q 3 2] [] 1) /\ 1 <= 1 /\ length ([q (-4) 1] : list AQ) = 1.       (* and the n = 1 boundary *)
 Proof. unfold wfT; cbn; auto 10. Qed.
 
+(* the pre-repair product (Legacy/C05Refuted.v) is refuted by the committed witness and panics on every 1x1 input:
+   the hypothesis 1 <= tn t of [tridiag_mul_spec] cannot be met by the pinned code at n = 1 *)
+From OV Require Import Legacy.C05Refuted.
+Check tridiag_mul_legacy_refuted :
+  exists (t : tridiag AQ) (v : list AQ), wfT t /\ 1 <= tn t /\ length v = tn t /\ tmul_legacy t v = Panic Index.
+Check tridiag_mul_legacy_panics_on_every_1x1 : forall (A : Arith) (t : tridiag A) (v : list A),
+  wfT t -> tn t = 1 -> length v = 1 -> tmul_legacy t v = Panic Index.
+
 Theorem tridiag_mul_rejects : forall (A : Arith) (t : tridiag A) (v : list A),
   length v <> tn t -> tmul t v = Panic Guard.
 Proof. intros A t v. exact (tmul_rejects t v). Qed.
